@@ -431,6 +431,21 @@ def run(v, tier, seed):
     n = corpus(v, sbeppc, wd)
     v.part("corpus", expected_reject=n["reject"], expected_accept=n["accept"])
 
+    # ---- 4. valid schemas nobody wrote by hand: built by spec/SchemaBuild.tla in TLC simulation, valid by
+    # Rules.tla (FinishedIsValid) - sbeppc has to accept every one of them
+    import schemabuild
+    gen = schemabuild.generated_schemas(10 if thorough else 3, seed)
+    ngen_ok = 0
+    for S in gen:
+        try:
+            vlib.gen_headers(sch.to_xml(S), S["package"], sbeppc)
+            ngen_ok += 1
+        except vlib.SbeppcRejected as ex:
+            v.violation("accept/generated/" + S["package"],
+                        "sbeppc rejects a schema that Rules.tla judges valid (built by SchemaBuild.tla):\n" + ex.out[-800:],
+                        {"xml": sch.to_xml(S), "sbeppc_output": ex.out[-2000:]})
+    v.part("generated_valid_schemas", accepted=ngen_ok, of=len(gen))
+
     if not samples and recs:
         rec = recs[min(3, len(recs) - 1)][1]
         samples.append({"kind": rec["kind"], "rule": rec["rule"], "position": rec["pos"], "edits": rec["edits"], "verdict": rec["verdict"]})
